@@ -79,6 +79,9 @@ func (x *Exec) atCallObligations(bc *blockCtx, in ssa.Instruction, callee string
 			vars[fmt.Sprintf("arg%d", j)] = a
 		}
 		ce := &CEnv{x: x, fr: bc.fr, st: bc.st, old: bc.fr.entry, vars: vars, lets: bc.fr.lets, guard: bc.reach, fc: bc.fr.fc, env: bc.env}
+		if bc.fr.loops != nil {
+			ce.loop = bc.fr.loops.innerOf[bc.b]
+		}
 		lab := fmt.Sprintf("#%d", i)
 		if cl.Label != "" {
 			lab = ":" + cl.Label
@@ -527,6 +530,7 @@ func (x *Exec) invoke(bc *blockCtx, in ssa.Instruction, recv *Val, m *types.Func
 		return x.callStatic(bc, in, f, nil, append([]*Val{rv}, args...))
 	}
 	key := normalizeFuncName(m.FullName())
+	x.atCallObligations(bc, in, key, append([]*Val{recv}, args...))
 	x.closureArgEffects(bc, args, key)
 	ic, mc := x.prog.ifaceMethod(m)
 	pure := ic != nil && ic.isPureMethod(m.Name())
